@@ -3,6 +3,7 @@ package main
 
 import (
 	"fmt"
+	"os"
 	"sort"
 	"strings"
 
@@ -26,9 +27,18 @@ func main() {
 	if cfg.Replay != "" {
 		replay(cfg, res)
 	} else {
-		runControlled(cfg, res, rng)
-		runLazy(cfg, res, rng)
-		runRace(cfg, res, rng)
+		// (C13_ONLY=controlled,lazy,...: run only those parts - a development aid, the driver never sets it)
+		only := os.Getenv("C13_ONLY")
+		part := func(name string) bool { return only == "" || strings.Contains(","+only+",", ","+name+",") }
+		if part("controlled") {
+			runControlled(cfg, res, rng)
+		}
+		if part("lazy") {
+			runLazy(cfg, res, rng)
+		}
+		if part("race") {
+			runRace(cfg, res, rng)
+		}
 	}
 	res.Write(cfg)
 }
@@ -68,8 +78,13 @@ func dcheck(c caseT, rr *runResult) []verdict {
 	// 1. no crash
 	for t, th := range rr.Results {
 		for i, r := range th {
-			if r.Kind == "fault" {
+			switch {
+			case r.Kind == "fault":
 				vs = append(vs, verdict{"no-crash", fmt.Sprintf("goroutine %d: %s escaped with a runtime fault: %s", t, c.Prog[t][i], r.Text), nil})
+			case r.Kind == "other":
+				vs = append(vs, verdict{"no-crash", fmt.Sprintf("goroutine %d: %s escaped with an error that no operation of the program can raise: %s", t, c.Prog[t][i], r.Text), nil})
+			case r.Kind == "fileerr" && !(c.Prog[t][i].Kind == "Load" && w.badLevel(c.Prog[t][i].L, c.Prog[t][i].N)):
+				vs = append(vs, verdict{"no-crash", fmt.Sprintf("goroutine %d: %s escaped with the error of an instantiator although no file of that name is broken: %s", t, c.Prog[t][i], r.Text), nil})
 			}
 		}
 	}
@@ -245,6 +260,11 @@ func cfgFamilies() [][]ldefT {
 		{{Parent: -1}, {Parent: 0, File: true, Files: []int{0}}, {Parent: 1}},    // static <- F{Na} <- C
 		{{Parent: -1}, {Parent: 0}, {Parent: 1, File: true, Files: []int{0, 1}}}, // static <- A <- F{Na,Nb}
 		{{Parent: -1}, {Parent: 0}, {Parent: 0}},                                 // static <- A, static <- B (siblings)
+		// files that cannot be instantiated (the instantiator panics while the name lock is held)
+		{{Parent: -1}, {Parent: 0, File: true, Files: []int{0}, Bad: []int{0}}},                                           // static <- F{Na!}
+		{{Parent: -1}, {Parent: 0, File: true, Files: []int{0, 1}, Bad: []int{1}}, {Parent: 1}},                           // static <- F{Na,Nb!} <- C
+		{{Parent: -1}, {Parent: 0}, {Parent: 1, File: true, Files: []int{0, 1}, Bad: []int{0, 1}}},                        // static <- A <- F{Na!,Nb!}
+		{{Parent: -1}, {Parent: 0, File: true, Files: []int{0}, Bad: []int{0}}, {Parent: 1, File: true, Files: []int{0}}}, // static <- F{Na!} <- G{Na}
 	}
 }
 
@@ -273,6 +293,14 @@ func corpus() []caseT {
 		{Cfg: f[4], Prog: pr(th(ld(2, 0), ld(2, 1)), th(ld(2, 1), ld(2, 0))), Note: "two file names, crossed"},
 		{Cfg: f[4], Prog: pr(th(ld(2, 0)), th(df(1, 0, 0), ld(2, 0))), Note: "file name shadowed by a definition in the parent"},
 		{Cfg: f[5], Prog: pr(th(df(1, 0, 0), ld(2, 0)), th(df(2, 0, 1), ld(1, 0))), Note: "siblings"},
+		{Cfg: f[6], Prog: pr(th(ld(1, 0)), th(ld(1, 0))), Note: "two loads of a name whose file is broken"},
+		{Cfg: f[6], Prog: pr(th(ld(1, 0), ld(1, 0)), th(ld(1, 0), hs(1, 0))), Note: "broken file, loads repeated"},
+		{Cfg: f[6], Prog: pr(th(ld(1, 0)), th(ld(1, 0)), th(ld(1, 0))), Note: "three loads of a name whose file is broken"},
+		{Cfg: f[7], Prog: pr(th(ld(2, 1), ld(2, 0)), th(ld(2, 0), ld(2, 1))), Note: "a broken and a good file, crossed, through the child"},
+		{Cfg: f[8], Prog: pr(th(ld(2, 0), ld(2, 1)), th(ld(2, 1), ld(2, 0))), Note: "two broken files, crossed"},
+		{Cfg: f[8], Prog: pr(th(ld(2, 0)), th(df(1, 0, 0), ld(2, 0))), Note: "broken file shadowed by a definition in the parent"},
+		{Cfg: f[9], Prog: pr(th(ld(2, 0)), th(ld(2, 0))), Note: "broken file in the parent, good file of the same name in the child"},
+		{Cfg: f[9], Prog: pr(th(ld(2, 0), ld(2, 0)), th(ld(1, 0), ld(2, 0)))},
 	}
 }
 
